@@ -20,6 +20,7 @@ import (
 	"verif/harness/h"
 	"verif/harness/m"
 	"verif/harness/rec"
+	"verif/harness/srcmut"
 )
 
 // Case is an accepted source text and optionally a whitespace-only variant of it.
@@ -148,10 +149,50 @@ func TestProp(t *testing.T) {
 		cliBudget = 400
 	}
 	blankTail := ctx.Open("F17")
+	almostBudget, nalmost := 60, 0
+	if ctx.Thorough() {
+		almostBudget = 600
+	}
 	rapid.Check(t, func(t *rapid.T) {
-		mode := rapid.SampledFrom([]string{"model", "model", "corpus-variant", "corpus-variant", "model-variant", "model-variant"}).Draw(t, "mode")
+		mode := rapid.SampledFrom([]string{"model", "model", "corpus-variant", "corpus-variant", "model-variant", "model-variant", "almost-formatted"}).Draw(t, "mode")
 		c := Case{Origin: mode}
 		switch mode {
+		case "almost-formatted":
+			// the formatter's own output with one small whitespace deviation: `evy fmt -c` must tell it apart
+			p := all[rapid.IntRange(0, len(all)-1).Draw(t, "prog")]
+			f, _, ok, _ := fmtx.Format(srcmut.Window(t, p.Src, 40))
+			if !ok || len(f) < 2 {
+				f = "x := 1\nif x > 0\n    print x\nend\n"
+			}
+			lines := strings.Split(strings.TrimSuffix(f, "\n"), "\n")
+			li := rapid.IntRange(0, len(lines)-1).Draw(t, "line")
+			dev := rapid.SampledFrom([]string{"no-final-newline", "no-final-newline", "trailing-space", "trailing-tab", "leading-space", "double-space"}).Draw(t, "deviation")
+			switch dev {
+			case "no-final-newline":
+				c.Src = strings.TrimSuffix(f, "\n")
+			case "trailing-space":
+				lines[li] += " "
+			case "trailing-tab":
+				lines[li] += "\t"
+			case "leading-space":
+				lines[li] = " " + lines[li]
+			default:
+				if i := strings.Index(strings.TrimLeft(lines[li], " "), " "); i > 0 && !strings.Contains(lines[li], "\"") && !strings.Contains(lines[li], "//") {
+					off := len(lines[li]) - len(strings.TrimLeft(lines[li], " "))
+					lines[li] = lines[li][:off+i] + " " + lines[li][off+i:]
+				} else {
+					lines[li] += " "
+				}
+			}
+			if c.Src == "" {
+				c.Src = strings.Join(lines, "\n") + "\n"
+			}
+			c.Origin = "almost-formatted:" + dev
+			if nalmost < almostBudget {
+				nalmost++
+				c.CLI = true
+				ctx.Rec.Add("cli_fmt_check_cases", 1)
+			}
 		case "corpus-variant":
 			p := all[rapid.IntRange(0, len(all)-1).Draw(t, "prog")]
 			c.Src = p.Src
@@ -170,7 +211,7 @@ func TestProp(t *testing.T) {
 				c.Variant, _ = fmtx.Relayout(t, c.Src)
 			}
 		}
-		if blankTail {
+		if blankTail && mode != "almost-formatted" {
 			// open finding F17: a source that ends in blank lines formats to text ending in a blank line.
 			// Generated sources are trimmed to avoid it (counted); its own reproducer keeps checking it.
 			trim := func(s string) string {
